@@ -175,6 +175,8 @@ func Main(args []string) error {
 		return runInRange(w, *seed, *n)
 	case "findnodes":
 		return runFindNodes(w, cases, *seed, *n, *workers)
+	case "offer":
+		return runOffer(w, *seed, *n, *workers, *slow)
 	case "gossip":
 		return runGossip(w, *seed, *n)
 	case "versions":
